@@ -63,10 +63,17 @@ using std::size_t;
 // number strings when we don't have to,
 const size_t    MAX_PRINTF_DIGITS = 100;
 
+// The largest number of fractional digits a double can need: the
+// smallest positive double is 2^(DBL_MIN_EXP - DBL_MANT_DIG), and every
+// double is a multiple of it, so sprintf() prints every double exactly
+// with this many digits after the decimal point (1074 for IEEE 754).
+const int       MAX_FRACTION_DIGITS = DBL_MANT_DIG - DBL_MIN_EXP;
+
 // The maximum number of characters sprintf() can produce for a double
-// with the "%.35f" format: a sign, DBL_MAX_10_EXP + 1 integer digits,
-// the decimal point and 35 fractional digits.
-const size_t    MAX_FLOAT_CHARACTERS = 1 + (DBL_MAX_10_EXP + 1) + 1 + 35;
+// with the "%.*f" format and a precision of up to MAX_FRACTION_DIGITS:
+// a sign, DBL_MAX_10_EXP + 1 integer digits, the decimal point and
+// the fractional digits.
+const size_t    MAX_FLOAT_CHARACTERS = 1 + (DBL_MAX_10_EXP + 1) + 1 + MAX_FRACTION_DIGITS;
 
 
 
@@ -1378,6 +1385,74 @@ static const char* const    thePrintfStrings[] =
     0
 };
 
+// The precision of the last format in thePrintfStrings.
+static const int    theLastPrintfStringPrecision = 35;
+
+
+
+// Write the decimal expansion of a finite value into the buffer, with
+// the smallest number of fractional digits, but at least 10, that
+// atof() converts back to the value.  Returns the number of characters
+// written, as sprintf() does.
+static int
+DoubleToCharacters(
+            double  theValue,
+            char    (&theBuffer)[MAX_FLOAT_CHARACTERS + 1])
+{
+    using std::sprintf;
+    using std::atof;
+    using std::frexp;
+
+    int     theCharsWritten = 0;
+
+    for (const char* const *    thePrintfString = thePrintfStrings;
+            *thePrintfString != 0;
+                ++thePrintfString)
+    {
+        theCharsWritten = sprintf(theBuffer, *thePrintfString, theValue);
+        assert(theCharsWritten != 0);
+
+        if (atof(theBuffer) == theValue)
+        {
+            return theCharsWritten;
+        }
+    }
+
+    // The value is so small (less than 2^-64) that the formats of the
+    // table lose it.  Go on with larger precisions.  frexp() yields
+    // |theValue| < 2^theExponent, so a precision p with
+    // 10^p <= 2^(-theExponent - 1) prints nothing but zeros, because
+    // |theValue| * 10^p < 1/2.  Since 3/10 is a little less than log10(2),
+    // that is the case for every p <= (-theExponent - 1) * 3 / 10, and
+    // the search can start after those.
+    int     theExponent = 0;
+
+    frexp(theValue, &theExponent);
+
+    int     thePrecision = (-theExponent - 1) * 3 / 10 + 1;
+
+    if (thePrecision <= theLastPrintfStringPrecision)
+    {
+        thePrecision = theLastPrintfStringPrecision + 1;
+    }
+
+    // With MAX_FRACTION_DIGITS digits the expansion is exact, so the
+    // search ends there at the latest.
+    for(;;)
+    {
+        theCharsWritten = sprintf(theBuffer, "%.*f", thePrecision, theValue);
+        assert(theCharsWritten != 0);
+
+        if (atof(theBuffer) == theValue ||
+            thePrecision >= MAX_FRACTION_DIGITS)
+        {
+            return theCharsWritten;
+        }
+
+        ++thePrecision;
+    }
+}
+
 
 
 
@@ -1448,22 +1523,9 @@ DOMStringHelper::NumberToCharacters(
     {
         char            theBuffer[MAX_FLOAT_CHARACTERS + 1];
 
-        using std::sprintf;
-        using std::atof;
         using std::isdigit;
 
-        const char* const *     thePrintfString = thePrintfStrings;
-
-        int     theCharsWritten = 0;
-
-        do
-        {
-            theCharsWritten = sprintf(theBuffer, *thePrintfString, theValue);
-            assert(theCharsWritten != 0);
-
-            ++thePrintfString;
-        }
-        while(atof(theBuffer) != theValue && *thePrintfString != 0);
+        int     theCharsWritten = DoubleToCharacters(theValue, theBuffer);
 
         // First, cleanup the output to conform to the XPath standard,
         // which says no trailing '0's for the decimal portion.
@@ -1752,22 +1814,9 @@ NumberToDOMString(
     {
         char            theBuffer[MAX_FLOAT_CHARACTERS + 1];
 
-        using std::sprintf;
-        using std::atof;
         using std::isdigit;
 
-        const char* const *     thePrintfString = thePrintfStrings;
-
-        int     theCharsWritten = 0;
-
-        do
-        {
-            theCharsWritten = sprintf(theBuffer, *thePrintfString, theValue);
-            assert(theCharsWritten != 0);
-
-            ++thePrintfString;
-        }
-        while(atof(theBuffer) != theValue && *thePrintfString != 0);
+        int     theCharsWritten = DoubleToCharacters(theValue, theBuffer);
 
         // First, cleanup the output to conform to the XPath standard,
         // which says no trailing '0's for the decimal portion.
